@@ -13,7 +13,7 @@ import pulsarbat as pb
 from harness.common import qlit, zlit, listlit
 from harness import exact as X
 
-VFILES = ['Model/Polyco.v', 'Proofs/PolycoProofs.v', 'Props/C08.v']
+VFILES = ['Model/Polyco.v', 'Proofs/PolycoProofs.v', 'Gen/GenPolyco.v', 'Proofs/PolycoGen.v', 'Props/C08.v']
 TOL = Fr(1, 10 ** 8)
 
 HEADER = '''From Coq Require Import ZArith QArith Qabs List Bool. Import ListNotations.
